@@ -380,6 +380,11 @@ func genStatFile(t *rapid.T, scale float64, constant bool, baseOff int, many, co
 			units = append(units, u)
 		}
 	}
+	if vcase.OneIn(t, 8, "twospellings") {
+		// one metric written in a scaled unit on some lines and in its base unit on others,
+		// where the base unit still contains a scalable component in the denominator
+		units = append(units, rapid.SampledFrom([]string{"ns/MB|sec/MB", "MB/ns|B/ns", "ns/ns|sec/ns"}).Draw(t, "twosp"))
+	}
 	for b := 0; b < nblocks; b++ {
 		nk := rapid.IntRange(0, 3).Draw(t, "ncfg")
 		if b == 0 {
@@ -420,7 +425,19 @@ func genStatFile(t *rapid.T, scale float64, constant bool, baseOff int, many, co
 						continue
 					}
 					c := scale * mult * float64(ui*7+3) * 10
-					fmt.Fprintf(&sb, " %v %s", genStatValue(t, c, constant), u)
+					val := genStatValue(t, c, constant)
+					if scaled, base, two := strings.Cut(u, "|"); two {
+						u = base
+						if rapid.Bool().Draw(t, "spelling") {
+							u = scaled
+							if strings.HasPrefix(scaled, "ns") {
+								val *= 1e9
+							} else {
+								val /= 1e6
+							}
+						}
+					}
+					fmt.Fprintf(&sb, " %v %s", val, u)
 				}
 				sb.WriteString("\n")
 			}
